@@ -52,7 +52,7 @@ def gen(seed, idx, tier):
             scn["options"]["pause_on_interrupt"] = True
             scn["observer"] = {"output": None, "answers": rnd.choice([["y"], ["y"], ["n"]])}
         scn["meta"]["refresh_fault"] = kind
-    return scen.maybe_restored(rnd, scen.maybe_sibling(rnd, scen.maybe_solve_twice(rnd, scn)))
+    return scen.maybe_moved(rnd, scen.maybe_restored(rnd, scen.maybe_sibling(rnd, scen.maybe_solve_twice(rnd, scn))), 0.08)
 
 
 def gen_bare(rnd):
